@@ -62,6 +62,8 @@ func TestProp(t *testing.T) {
 		runCase(r, i, version, key, nLookups)
 	})
 
+	loadCases(r)
+
 	min := func(q, th int64) int64 {
 		if vh.Thorough() {
 			return th
